@@ -564,3 +564,6 @@ print(bad)
 if bad: reproduced(str(bad))
 not_reproduced()
 """
+
+# level text addendum (cases added after the seeded-change rounds)
+LEVEL_TEXT = LEVEL_TEXT + ' Also: histories on one converter object, a failed verification followed by the deletion step, the deletion step without any verification, a shank subset, NP2.1 input that arrives compressed, do-nothing runs leave the directory listing unchanged.'
